@@ -326,7 +326,8 @@ structure Hit where
   score : Score
 deriving Repr, DecidableEq
 
-def search (s : Index) (q : VecRef) (k : Nat) : List Hit :=
+/-- `Hnsw.Search` for an already clamped `k` -/
+def searchCore (s : Index) (q : VecRef) (k : Nat) : List Hit :=
   match s.entry with
   | none => []
   | some ep =>
@@ -335,6 +336,13 @@ def search (s : Index) (q : VecRef) (k : Nat) : List Hit :=
     let sel := selectNbrs Pmin Pmax dist cfg s q n k 0
     ((Pmax.drain sel).take k).reverse.filterMap fun it =>
       (s.verts it.vid).map fun x => ⟨x.id, x.md, it.score⟩
+
+/-- `k` is clamped to the number of stored items (`if l := this.Len(); l > 0 && k > l { k = l }`) -/
+def clampK (s : Index) (k : Nat) : Nat :=
+  if 0 < s.ids.length ∧ s.ids.length < k then s.ids.length else k
+
+def search (s : Index) (q : VecRef) (k : Nat) : List Hit :=
+  searchCore Pmin Pmax dist cfg s q (clampK s k)
 
 end Algo
 end Anndb
